@@ -35,7 +35,10 @@ CONSTANTS
   Threshold,    \* project snapshot threshold
   MaxSess,      \* attachment sessions per client
   MaxCompact,   \* compactions
-  MaxUndo       \* undo/redo calls per client
+  MaxUndo,      \* undo/redo calls per client
+  SyncWeight    \* simulation only: how many times the Sync disjunct is replicated (TLC's
+                \* simulator picks uniformly among generated successors; a large
+                \* alphabet would otherwise starve syncs). No effect on the state graph.
 
 FeatAll == {"detach", "reattach", "remove", "compact", "force", "deactivate", "pushonly",
             "gcoff", "build", "evict", "undo", "lateattach", "idle"}
@@ -290,7 +293,8 @@ Next ==
   \/ \E c \in Clients :
        \/ Attach(c, FALSE) \/ Attach(c, TRUE)
        \/ \E op \in Alphabet : Edit(c, op)
-       \/ Sync(c, FALSE) \/ Sync(c, TRUE)
+       \/ \E w \in 1..SyncWeight : Sync(c, FALSE)
+       \/ Sync(c, TRUE)
        \/ Detach(c) \/ Remove(c) \/ Deactivate(c) \/ Undo(c) \/ Redo(c)
   \/ Setup
   \/ Compact(FALSE) \/ Compact(TRUE)
